@@ -13,11 +13,13 @@ pub struct PropDef {
 }
 
 pub mod c01;
+pub mod c02;
+pub mod c03;
 pub mod c04;
 pub mod c05;
 
 pub fn all() -> Vec<&'static PropDef> {
-    vec![&c01::DEF, &c04::DEF, &c05::DEF]
+    vec![&c01::DEF, &c02::DEF, &c03::DEF, &c04::DEF, &c05::DEF]
 }
 
 pub fn lookup(id: &str) -> Option<&'static PropDef> {
